@@ -2,7 +2,9 @@ package vsched
 
 import (
 	"fmt"
+	"os"
 	"reflect"
+	"strconv"
 	"time"
 )
 
@@ -52,6 +54,12 @@ func (e *Explorer) Determinism(prefix []int) error {
 // Explore runs the DFS. Level 0 (root) and level 1 executions are run by every shard but only
 // checked by shard 0; level-2 subtrees are dealt round-robin to the shards.
 func (e *Explorer) Explore() {
+	// dense parts (statement-level points) run the harness' scenarios under their own, smaller preemption bound
+	if v := os.Getenv("VERIF_BOUND"); v != "" {
+		if n, err := strconv.Atoi(v); err == nil {
+			e.Bound = n
+		}
+	}
 	e.explore(nil, 0, nil)
 }
 
